@@ -171,7 +171,7 @@ class ZMQEventLoop(EventLoop):
             The condition to monitor on the file (defaults to ``POLLIN``).
         """
         if isinstance(fd, int):
-            fd = os.fdopen(fd)
+            fd = os.fdopen(fd, closefd=False)  # the descriptor belongs to the caller: never close it with the handle
         self._poller.register(fd, flags)
         self._queue_callbacks[fd.fileno()] = callback
         return fd
